@@ -19,7 +19,7 @@ def corpus(ctx): return load_corpus(ctx['verif'], 'C06')
 def generate(ctx):
     rng = random.Random(ctx['seed'] * 7919 + 6)
     quick = ctx['tier'] == 'quick'
-    cases = coregen.directed_link_cases() + coregen.directed_key_cases()
+    cases = coregen.directed_link_cases() + coregen.directed_key_cases() + coregen.setbool_cases()
     n = 400 if quick else 1500
     for i in range(n):
         prof = 'edit' if i % 4 else 'own'
